@@ -573,6 +573,51 @@ pub fn run(ctx: &Ctx) {
         }
     });
 
+    // (d2) MSS and window-scale options whose length octet exceeds the canonical one while the bytes are present:
+    //      the value is still the option's first octets (p0f reads it and flags the option)
+    ctx.run_indexed("oversized-mss-and-ws-options", "MSS option with length 4..12 and window-scale option with length 3..8 (all octets present, NOP filled to a multiple of four) x 6 values x {SYN, SYN+ACK} x {v4, v6} x option first / after NOPs; oracle: the reported mss / wscale value is the option's first octets; non-trivial: length above the canonical one", true, (9 + 6) * 6 * 2 * 2 * 2, |i, st| {
+        let mut k = i;
+        let which = k % 15; k /= 15;
+        let val = [0u16, 1, 536, 1460, 8960, 65535][(k % 6) as usize]; k /= 6;
+        let synack = k % 2 == 1; k /= 2;
+        let v4 = k % 2 == 0; k /= 2;
+        let lead = k % 2 == 1;
+        let mut c = TcpCase::base(v4);
+        c.tcp.flags = if synack { fr::SYN | fr::ACK } else { fr::SYN };
+        let (is_mss, len) = if which < 9 { (true, 4 + which as u8) } else { (false, 3 + (which - 9) as u8) };
+        let mut tail: Vec<u8> = if lead { vec![1, 1] } else { vec![] };
+        if is_mss {
+            tail.extend_from_slice(&[2, len, (val >> 8) as u8, val as u8]);
+            tail.extend(std::iter::repeat(0u8).take(len as usize - 4));
+        } else {
+            tail.extend_from_slice(&[3, len, val as u8]);
+            tail.extend(std::iter::repeat(0u8).take(len as usize - 3));
+        }
+        while tail.len() % 4 != 0 {
+            tail.push(1);
+        }
+        c.raw_tail = tail;
+        st.evals += 1;
+        if (is_mss && len > 4) || (!is_mss && len > 3) {
+            st.nontrivial(&(which, val, synack, v4, lead));
+        }
+        let f = c.frame();
+        let mut tracker: drive::TcpTracker = ttl_cache::TtlCache::new(4);
+        let obs = match drive::tcp_packet(&f, &mut tracker, false) {
+            drive::TcpOut::Ok(r) => {
+                if synack { r.syn_ack.map(|s| (s.sig.matching.mss, s.sig.matching.wscale)) } else { r.syn.map(|s| (s.sig.matching.mss, s.sig.matching.wscale)) }
+            }
+            _ => None,
+        };
+        let ok = match obs {
+            Some((mss, ws)) => if is_mss { mss == Some(val) } else { ws == Some(val as u8) },
+            None => false,
+        };
+        if !ok {
+            st.fail(fail!(if is_mss { "tcp:mss-of-oversized-option" } else { "tcp:wscale-of-oversized-option" }, "option length {len}, value {val}: observed (mss, wscale) {:?} | options {}", obs, crate::engine::hex(&c.raw_tail)), json!({"frame": crate::engine::hex(&f)}));
+        }
+    });
+
     // (e) every bundled option layout x flags
     let n_lay = layouts.len() as u64;
     ctx.run_indexed("bundled-layouts", "every distinct option layout of p0f.fp (incl. eol+n padding) x {SYN, SYN+ACK} x {v4,v6}", true, n_lay * 4, |i, st| {
